@@ -51,9 +51,15 @@ NOT_CARRIED = [
     "_point_in_polygon under rotations: it rotates the polygon to the horizontal plane and shoots a +x ray there; "
     "C17_kernels_visibility_partial is conditional on equal point-in-polygon answers in both poses (known finding "
     "ray_through_vertex shows they can differ on a thin set)",
-    "equivariance of the tiling under the 48 maps (only translation: C08_translate) and that the baked kernel data "
-    "of the placed scene are the sigma-transported data (hypotheses of C17_relabel_scene): established per scene by "
-    "the harness (patch centres, areas, form factors, visibility matched through sigma), not proved",
+    "equivariance of the tiling under the 48 maps is now PROVED wall by wall (C17_tiling_axis_permutation = "
+    "C08_axis_permutation, both engines; explicit index map: C08_axis_permutation_index; translation: C08_translate): "
+    "for a wall in a coordinate plane with both in-plane extents >= the patch size, the patch list of the image wall is "
+    "a permutation of the images of the wall's patches, the four vertices of every patch reordered by one fixed order.  "
+    "It is an identity of exact ordered-field arithmetic: in float64 the mirrored cell edges -(x_max) + k*s and "
+    "-(x_min + (n-k)*s) agree only up to rounding, and the theorem is per wall (the wall blocks of _process_patches keep "
+    "their order: C08_wall_block).  Still NOT proved: that the baked kernel data of the placed scene are the "
+    "sigma-transported data (hypotheses of C17_relabel_scene) -- established per scene by the harness (patch centres, "
+    "areas, form factors, visibility matched through sigma)",
 ]
 
 
